@@ -240,7 +240,10 @@ mod context;
 mod executor;
 mod stream;
 
+#[cfg(crux_verif)]
+use crate::verif::sync::atomic::AtomicBool;
 use std::future::Future;
+#[cfg(not(crux_verif))]
 use std::sync::atomic::AtomicBool;
 use std::sync::Arc;
 
